@@ -316,8 +316,9 @@ func (g *vnGen) voteStruct(withProp bool) *vnVote {
 	return v
 }
 
-// a vote that agreement would decode but the stateless encoder refuses; short=true keeps it
-// within MaxCompressedVoteSize bytes so that the broadcaster's fallback copies all of it
+// a vote that agreement would decode but the stateless encoder refuses; short=true gives a
+// bottom vote of at most MaxCompressedVoteSize bytes, otherwise it is longer (the broadcaster's
+// fallback must send all of it)
 func (g *vnGen) uncompressible(short bool) []byte {
 	v := g.voteStruct(!short)
 	if short {
@@ -419,9 +420,8 @@ func TestVerifC42Net(t *testing.T) {
 	defer out.Close()
 	rnd := vNewRand(4243)
 	nConn := vEnvInt("VERIF_C42_NET_CONNS", 60)
-	long := vEnvInt("VERIF_C42_TRUNC", 0) != 0
 	sizes := []uint{16, 16, 32, 64, 256, 2048}
-	var nVotes, nVP, nAbort, nFail, nDamaged int
+	var nVotes, nVP, nAbort, nFail, nDamaged, nLong int
 	for i := 0; i < nConn; i++ {
 		g := vnNewGen(rnd)
 		c := vnNewConn(sizes[rnd.Intn(len(sizes))])
@@ -435,7 +435,8 @@ func TestVerifC42Net(t *testing.T) {
 			nFail++
 			switch rnd.Intn(3) {
 			case 0:
-				c.vote(g.uncompressible(!long || rnd.Bool()))
+				c.vote(g.uncompressible(rnd.Intn(3) == 0)) // mostly longer than MaxCompressedVoteSize
+				nLong++
 				nVotes++
 			default:
 				var se vpack.StatelessEncoder
@@ -459,6 +460,20 @@ func TestVerifC42Net(t *testing.T) {
 		out.Line(c.line())
 		nVP += c.nVP
 		nAbort += c.nAbort
+	}
+	// a refused vote longer than MaxCompressedVoteSize while the stream is on, and again after the abort
+	{
+		g := vnNewGen(vNewRand(4244))
+		c := vnNewConn(16)
+		c.vote(g.voteStruct(true).encode())
+		u := g.voteStruct(true)
+		u.ps[7] = 9
+		c.vote(u.encode())
+		c.vote(g.voteStruct(true).encode())
+		u = g.voteStruct(true)
+		u.ps[63] = 1
+		c.vote(u.encode())
+		out.Line(c.line())
 	}
 	// the history of seeded/m31: P1, P2, an uncompressible vote, P3, P2 again, P1 again
 	{
@@ -489,5 +504,5 @@ func TestVerifC42Net(t *testing.T) {
 		out.Line(c.line())
 	}
 	vStats(map[string]interface{}{"net_connections": nConn + 1, "net_votes": nVotes, "net_vp_frames": nVP,
-		"net_aborts": nAbort, "net_failure_points": nFail, "net_damaged_frames": nDamaged, "net_long_uncompressible": long})
+		"net_aborts": nAbort, "net_failure_points": nFail, "net_damaged_frames": nDamaged, "net_refused_votes": nLong})
 }
